@@ -696,3 +696,7 @@ for _p in ("C11", "C04"):
     PROPS[_p]["claim"] += (" HISTORY FORM about the translated code (Proofs/EndToEnd/HistoryC11.lean): generated_history_results — over a whole history of commands run by SendCommand AS TRANSLATED (any replies, "
                            "forgeries, losses, any number of earlier commands), whenever a call returns a completion code with a nil error, a reply delivered DURING THAT CALL decoded to a message for THAT call's command "
                            "(NetFn+1, command, body code, enterprise) with that completion code, in a wrapper addressed to this session, authenticated when an integrity algorithm was negotiated, whose AuthCode is the keyed hash under K1.")
+PROPS["C10"]["proofs"] = PROPS["C10"]["proofs"] + ["Bmc.Proofs.EndToEnd.HistoryC10"]
+PROPS["C10"]["claim"] += (" HISTORY FORM about the translated code (Proofs/EndToEnd/HistoryC10.lean): generated_history_is_the_contract — the datagrams SendCommand AS TRANSLATED hands to the transport over ANY history of "
+                          "commands are exactly `contract`: per command as many as the documented behaviour says (one per attempt until the first final answer / lost reply / end of context), each the complete packet for that "
+                          "same command with the next sequence number and IV draw, the next command starting where the counter stands; contract_count_busy_then_final — n temporary answers then a final one: n+1 datagrams.")
